@@ -27,6 +27,7 @@ type SpecEnv struct {
 	loopHeader *ssa.BasicBlock
 	frame      *Frame
 	override   map[ssa.Value]SV
+	prove      bool // clause is being proved (witness hints of exists are used), not assumed
 }
 
 // SVal is the value of a spec expression.
@@ -52,7 +53,7 @@ func (f *Frame) specEnv(st, old *State, override map[ssa.Value]SV) *SpecEnv {
 		e.pkg = f.fn.Object().Pkg()
 	}
 	for n, v := range f.params {
-		e.vars[n] = specVar{sv: v}
+		e.vars[n] = specVar{sv: v, sort: f.paramSorts[n]}
 	}
 	for _, p := range f.fn.Params {
 		if v, ok := f.env[p]; ok {
@@ -384,6 +385,15 @@ func (e *SpecEnv) equal(a, b SVal) string {
 		if b.Fn != nil {
 			return "false"
 		}
+		if b.Typ == nil {
+			switch b.Sort {
+			case "Slice":
+				return "(= (s.ref " + b.T + ") 0)"
+			case "Iface":
+				return "(= (i.tid " + b.T + ") 0)"
+			}
+			return "(= " + b.T + " 0)"
+		}
 		switch b.Typ.Underlying().(type) {
 		case *types.Slice:
 			return "(= (s.ref " + b.T + ") 0)"
@@ -431,6 +441,7 @@ func (e *SpecEnv) ident(name string) SVal {
 		return v
 	}
 	if srt, ok := e.x.S.GhostVars[name]; ok {
+		srt = e.x.resolveSort(srt)
 		return ghostVal(e.st.get(c.ghostVar(name, srt)), srt)
 	}
 	if name == "$alloc" || name == "alloc" {
@@ -757,6 +768,11 @@ func (e *SpecEnv) call(x *Expr) SVal {
 			srt := "Int"
 			var typ types.Type = tInt
 			body := args[1]
+			var witness *Expr
+			if len(args) == 4 {
+				witness = args[3]
+				args = args[:3]
+			}
 			if len(args) == 3 {
 				tv := e.eval(args[1])
 				if tv.IsType != nil {
@@ -766,6 +782,14 @@ func (e *SpecEnv) call(x *Expr) SVal {
 					e.fail("quantifier type")
 				}
 				body = args[2]
+			}
+			if witness != nil && fn.Name == "exists" && e.prove {
+				// proving an existential with a named witness: prove the instance
+				w := e.eval(witness)
+				if w.T != "" {
+					ne := e.bind(name, specVar{sv: tv(w.T), typ: typ})
+					return goVal(ne.evalBool(body), tBool)
+				}
 			}
 			bn := c.freshName("q_" + name)
 			ne := e.bind(name, specVar{sv: tv(qsym(bn)), typ: typ})
@@ -816,10 +840,20 @@ func (e *SpecEnv) call(x *Expr) SVal {
 		case "off":
 			a := e.eval(args[0])
 			return goVal("(s.off "+a.T+")", tInt)
+		case "same":
+			// same(a, b): identical slice headers / identical values
+			a, b := e.eval(args[0]), e.eval(args[1])
+			if a.IsNil {
+				a.T = c.zero(b.Typ)
+			}
+			if b.IsNil {
+				b.T = c.zero(a.Typ)
+			}
+			return goVal(eq(a.T, b.T), tBool)
 		case "unchanged":
 			a := e.eval(args[0])
 			b := e.withState(e.old).eval(args[0])
-			return goVal(e.equal(a, b), tBool)
+			return goVal(eq(a.T, b.T), tBool)
 		case "bytesAt":
 			// bytesAt(s, i): element i of byte slice s as Int
 			a := e.eval(args[0])
@@ -879,7 +913,7 @@ func (e *SpecEnv) call(x *Expr) SVal {
 				v := e.eval(a)
 				var want string
 				var gt types.Type
-				if strings.Contains(d.Params[i][1], "go:") {
+				if isGoTypeSpec(d.Params[i][1]) {
 					gt = e.x.resolveType(d.Params[i][1])
 					want = e.c.sortOf(gt)
 				} else {
@@ -1132,4 +1166,41 @@ func (x *Exec) pbFieldFn(st types.Type, k int) (fn, sort string) {
 	}
 	fn = x.c.declFun("pb:"+typeKey(st)+"."+s.Field(k).Name(), []string{"BV"}, sort)
 	return
+}
+
+func isGoTypeSpec(s string) bool {
+	switch s {
+	case "Int", "Bool", "BV", "String", "Slice", "Iface", "Float":
+		return false
+	}
+	if strings.HasPrefix(s, "(") {
+		return false
+	}
+	return true
+}
+
+// ghostSets performs the contract's ghost assignments (evaluated in env's state) on st.
+func (e *SpecEnv) ghostSets(ct *Contract, st *State, guard string) {
+	for _, gs := range ct.GhostSets {
+		i := strings.Index(gs.Text, "=")
+		if i < 0 {
+			e.fail("%s: ghostset needs 'name = expr'", gs.Src)
+		}
+		name := strings.TrimSpace(gs.Text[:i])
+		srt, ok := e.x.S.GhostVars[name]
+		if !ok {
+			e.fail("%s: unknown ghost variable %s", gs.Src, name)
+		}
+		srt = e.x.resolveSort(srt)
+		ex, err := parseExpr(strings.TrimSpace(gs.Text[i+1:]))
+		if err != nil {
+			e.fail("%s: %v", gs.Src, err)
+		}
+		v := e.eval(ex)
+		if v.IsNil {
+			v.T = "0"
+		}
+		h := e.c.ghostVar(name, srt)
+		st.heap[h] = ite(guard, v.T, st.get(h))
+	}
 }
